@@ -106,6 +106,9 @@ pub struct LayoutPlan {
     /// end of the file, are all FREESECT).  Legal, and lets a small file have DIFAT sectors:
     /// with 110 or more FAT sectors in total the DIFAT spills out of the header in V3 and V4.
     pub extra_fat_sectors: u32,
+    /// exact number of FAT sectors (0 = off; ignored when fewer than the content needs): lets a
+    /// case put the DIFAT exactly at a boundary (109 + 127k entries in version 3)
+    pub total_fat_sectors: u32,
     /// false: balanced trees; true: per storage balanced or insertion-built
     pub library_like_trees: bool,
 }
@@ -138,6 +141,7 @@ pub fn plan_from_seed(seed: u64, version: u16) -> LayoutPlan {
         v3_size_high_garbage: version == 3 && garbage,
         min_fat_sectors: 0,
         extra_fat_sectors: 0,
+        total_fat_sectors: 0,
         library_like_trees,
     }
 }
@@ -648,6 +652,10 @@ pub fn write_image(content: &Dump, plan: &LayoutPlan) -> Result<Vec<u8>, String>
         n_fat += plan.extra_fat_sectors as u64;
         n_difat = difat_for(n_fat);
         debug_assert!((base_used + n_free) as u64 + n_fat + n_difat <= n_fat * cells_per_sector as u64);
+    }
+    if plan.total_fat_sectors as u64 > n_fat {
+        n_fat = plan.total_fat_sectors as u64;
+        n_difat = difat_for(n_fat);
     }
     let n_fat = n_fat as usize;
     let n_difat = n_difat as usize;
@@ -1551,6 +1559,7 @@ mod tests {
             v3_size_high_garbage: false,
             min_fat_sectors: 0,
         extra_fat_sectors: 0,
+        total_fat_sectors: 0,
             library_like_trees: false,
         }
     }
